@@ -28,10 +28,12 @@ def make_table(heights, groups=None, *, ndata=2, fonts=None, sizes=None, subline
     for lvl in range(levels):
         gcols.append({"name": f"@N{len(names)}", "dtype": "str", "values": list(groups[lvl])})
         names.append(gcols[-1]["name"])
-    scol = None
+    scols = []
     if subline is not None:
-        scol = {"name": f"@N{len(names)}", "dtype": "str", "values": list(subline)}
-        names.append(scol["name"])
+        sub_lists = subline if (subline and isinstance(subline[0], list)) else [subline]
+        for sl in sub_lists:
+            scols.append({"name": f"@N{len(names)}", "dtype": "str", "values": list(sl)})
+            names.append(scols[-1]["name"])
     spanning = levels > 0 and (not new_page or (pageby_row or "column") != "column")
     ndisp = ndata + (levels if (levels and not spanning) else 0)
     rel = list(rel_widths) if rel_widths else [1] * ndata
@@ -58,7 +60,7 @@ def make_table(heights, groups=None, *, ndata=2, fonts=None, sizes=None, subline
                 t = tag
             data_cols[j]["values"].append(t)
         real_heights.append(hk)
-    cols = (gcols + ([scol] if scol else []) + data_cols) if group_first else (data_cols + gcols + ([scol] if scol else []))
+    cols = (gcols + scols + data_cols) if group_first else (data_cols + gcols + scols)
     order_names = [c["name"] for c in cols]
     if levels:
         body["page_by"] = [c["name"] for c in gcols]
@@ -66,8 +68,8 @@ def make_table(heights, groups=None, *, ndata=2, fonts=None, sizes=None, subline
             body["new_page"] = True
         if pageby_row:
             body["pageby_row"] = pageby_row
-    if scol:
-        body["subline_by"] = [scol["name"]]
+    if scols:
+        body["subline_by"] = [c["name"] for c in scols]
     if pageby_header is not None:
         body["pageby_header"] = pageby_header
     if rel_widths:
@@ -129,10 +131,12 @@ def runs_for(draw, n, capacity):
 
 
 @st.composite
-def nested_groups(draw, n, levels, capacity, dividers=False, nulls=False):
+def nested_groups(draw, n, levels, capacity, dividers=False, nulls=False, restart=None):
     """Hierarchically sorted keys for `levels` page_by levels; returns list of per-row value lists."""
     cols = [[None] * n for _ in range(levels)]
     counters = [0] * levels
+    if restart is None:
+        restart = draw(st.booleans())
 
     def fill(level, lo, hi):
         if level >= levels or lo >= hi:
@@ -150,7 +154,15 @@ def nested_groups(draw, n, levels, capacity, dividers=False, nulls=False):
             counters[level] += 1
             for i in range(pos, pos + r):
                 cols[level][i] = v
-            fill(level + 1, pos, pos + r)
+            if restart and level + 1 < levels:
+                counters[level + 1] = 0      # inner values are reused under different outer values
+            if v == "-----":
+                # a divider group has no headings at all: the inner levels are dividers too
+                for inner in range(level + 1, levels):
+                    for i in range(pos, pos + r):
+                        cols[inner][i] = "-----"
+            else:
+                fill(level + 1, pos, pos + r)
             pos += r
 
     fill(0, 0, n)
@@ -202,7 +214,11 @@ def pag_recipe(draw, *, fonts=False, strategies=("plain", "page_by", "page_by_ne
                     shared[f"{draw(st.integers(0, n - 1))},{draw(st.integers(1, ndata - 1))}"] = draw(st.sampled_from(pool))
     subline = None
     if strat == "subline":
-        subline = runs_to_values(draw(runs_for(n, capacity)), "@B", 0) if n else []
+        if n and draw(st.integers(0, 9)) < 3:
+            two = draw(nested_groups(n, 2, capacity, restart=True))
+            subline = [[v.replace("@G", "@B") for v in two[0]], [v.replace("@G", "@B") for v in two[1]]]
+        else:
+            subline = runs_to_values(draw(runs_for(n, capacity)), "@B", 0) if n else []
     new_page = strat == "page_by_new"
     pbr = draw(st.sampled_from(pageby_rows)) if new_page else None
     pl = tuple(draw(st.sampled_from(["first", "last", "all"])) for _ in range(3)) if (placements and draw(st.booleans())) else None
